@@ -33,7 +33,7 @@ deriving Repr, Inhabited, DecidableEq
 inductive BI where
   | len | split | trimSpace | equalFold | toLower | index | makeMap | newObj
   | parseInt | sprintfD | toInt32 | toInt64 | bufString | mapGet | mapHas
-  | makeStrs | itoa | toInt | join
+  | makeStrs | itoa | toInt | join | mkKV
 deriving DecidableEq, Repr
 
 inductive Op where
@@ -122,6 +122,7 @@ def biApply : BI → List V → Option V
   | .itoa, [.int v] => some (.str (showInt v))
   | .toInt, [.int v] => some (.int v)
   | .join, [.strs l, .str [c]] => some (.str (joinOn c l))
+  | .mkKV, [a, b, c] => some (.pair a (.pair b c))     -- the arguments of NewParamKVSeperate, kept for ToStringStr
   | .split, [.str s, .str [c]] => some (.strs (splitOn c s))
   | .trimSpace, [.str s] => some (.str (trim s))
   | .equalFold, [.str a, .str b] => some (.bool (equalFoldA a b))
@@ -154,6 +155,7 @@ def vEq : V → V → Option Bool
 
 def binApply : Op → V → V → Option V
   | .add, .int a, .int b => some (.int (a + b))
+  | .add, .str a, .str b => some (.str (a ++ b))
   | .sub, .int a, .int b => some (.int (a - b))
   | .lt, .int a, .int b => some (.bool (decide (a < b)))
   | .le, .int a, .int b => some (.bool (decide (a ≤ b)))
